@@ -827,6 +827,14 @@ fn run_block(b: &Block, l: &mut Local) {
 
 fn replay(ctx: &Ctx, case: &Value) {
     ctx.with_local(|l| {
+        if case["dir"].as_u64() == Some(0) {
+            let wire = hex::dec(case["hex"].as_str().unwrap_or("")).unwrap_or_default();
+            let rtype = case["rtype"].as_u64().unwrap_or(0) as u16;
+            if let Err(e) = RData::read(hickory_proto::serialize::binary::BinDecoder::new(&wire), RecordType::from(rtype)) {
+                l.violation(&format!("rfc-octets-rejected:type{rtype}"), &format!("the decoder rejects the RFC form of a valid type {rtype} RDATA: {e}"), || case.clone());
+            }
+            return;
+        }
         if case["dir"].as_u64() == Some(2) && case["large"].is_string() {
             let al = Alpha::new(case["thorough"].as_bool().unwrap_or(false));
             let seeds = ext::large_seeds(&al, &[0, 1, 2]);
@@ -927,7 +935,8 @@ fn main() {
          every 8th seed; thorough: every window of every entry); structure-aware edits (16-bit windows x 8 boundary values; thorough: \
          S-substitutions, truncations) of 17 KiB..64 KiB seeds (quick: one seed, thorough: three) at the first/last 256 octets and \
          0x3f80..0x4080; f6: consistent resizes of every inner length-prefixed field of every RDATA seed to every length of its width (see C01) \
-         and pairs at {0,1,39,40,63,64,255}^2; f7: boundary patterns {00.., 00..01, 7f ff.., 80 00.., ff..fe, ff..ff} on every window of width 1/2/4/6 \
+         and pairs at {0,1,39,40,63,64,255}^2; f8: every value 0..255 of every fixed octet x consistent resizes {0..20, 31..33, 63..65, 255} of a variable-length field of the \
+         same (sub)structure (thorough: every octet x every field of the RDATA); f7: boundary patterns {00.., 00..01, 7f ff.., 80 00.., ff..fe, ff..ff} on every window of width 1/2/4/6 \
          of the fixed parts of every RDATA seed, pairs of windows, windows x {0,1,255} resizes; 22 growth families) that decodes and re-encodes: decode(encode(decode(b))) == decode(b), and \
          RDATA of every type other than NS/CNAME/PTR/MX/SOA/obsolete-1035/OPT is octet-identical (inputs with a compression pointer \
          inside a name that RFC 3597 forbids to compress are logged, not judged). distinct_nontrivial: direction 1 = distinct \
@@ -949,6 +958,18 @@ fn main() {
     ctx.set("typed_record_types_without_alphabet_entry", json!(gaps));
     if !gaps.is_empty() {
         ctx.machinery_failure(&format!("record types with a dedicated decoder but no alphabet entry: {gaps:?}"));
+    }
+
+    // RFC-valid RDATA of the alphabet that the decoder refuses (the statement: a message assembled from valid
+    // records decodes after encoding; these octets are what any conforming encoder writes for the value)
+    for (tag, rtype, wire, err) in c01::alphabet::rejected_entries() {
+        ctx.with_local(|l| {
+            l.violation(
+                &format!("rfc-octets-rejected:type{rtype}"),
+                &format!("alphabet entry {tag}: the decoder rejects the RFC form {} of a valid type {rtype} RDATA: {err}", hex::enc(&wire)),
+                || json!({"dir": 0, "entry": tag, "rtype": rtype, "hex": hex::enc(&wire)}),
+            )
+        });
     }
 
     // alphabet self-check: constructor-built values and RFC octets denote the same RDATA
@@ -1290,6 +1311,25 @@ fn main() {
         ctx.machinery_failure("f6: a layout table does not describe its seed RDATA");
     }
 
+    // f8: every value of a fixed octet x consistent resize of a variable-length field (c01::layout, see C01):
+    // quick: octet and field in the same (sub)structure; thorough: every octet x every field of the RDATA
+    ctx.par_run(rd_seeds.len() as u64, 1, |i, l| {
+        use c01::layout;
+        let (tag, rtype, w) = &rd_seeds[i as usize];
+        ctx.watch(l.worker, || format!("f8 {tag}"));
+        let Some(rd) = layout::rdata_layout(*rtype, w) else { return };
+        let (tree, rd_at) = layout::message_tree(*rtype, rd);
+        let mut t = Tally::default();
+        let mut msg = vec![];
+        layout::value_resize_family(&tree, rd_at, thorough, |tr| {
+            msg.clear();
+            if layout::serialize(tr, &mut msg) && msg.len() <= 65535 {
+                judge_d2(&msg, false, &mut t, l, &|| json!({"dir": 2, "hex": hex::enc(&msg), "seed": tag, "family": "f8"}));
+            }
+        });
+        flush(t, "f8", l);
+    });
+
     // f7: field-boundary patterns inside the fixed parts of every RDATA seed (see audit.rs)
     ctx.par_run(rd_seeds.len() as u64, 1, |i, l| {
         let (tag, rtype, w) = &rd_seeds[i as usize];
@@ -1310,6 +1350,10 @@ fn main() {
     let mut litems: Vec<(usize, usize, usize)> = vec![];
     for (k, s) in large.iter().enumerate() {
         let n = s.bytes.len();
+        if n < 0x4080 {
+            ctx.with_local(|l| l.violation("encode-failed:large-seed", &format!("hickory does not encode the valid large message {} (or encodes it in {n} octets)", s.tag), || json!({"dir": 1, "family": "large-seed", "tag": s.tag})));
+            continue;
+        }
         let _ = k;
         let regions: Vec<(usize, usize)> = vec![(0, 256), (0x3f80, 0x4080.min(n)), (n - 256, n)];
         for (lo, hi) in regions {
@@ -1358,7 +1402,7 @@ fn main() {
     });
 
     // vacuity
-    for k in ["d2:f7:roundtrip-ok", "d2:f7:rejected-by-decoder", "d1:ok:other-producer-or-mode", "d1:producer:same-octets", "d1:reference-octets-decode-to-the-assembled-message", "d2:f6:roundtrip-ok", "d2:f6:rejected-by-decoder", "d2:f5:roundtrip-ok", "d2:f5:rejected-by-decoder", "d2:large:roundtrip-ok", "d2:large:rejected-by-decoder", "d2:large:seed-roundtrip-ok", "d1:ok:compressed", "d1:ok:plain", "d2:f1:roundtrip-ok", "d2:f2:roundtrip-ok", "d2:f3:roundtrip-ok", "d2:f4:roundtrip-ok", "d2:f3:seed-roundtrip-ok", "d2:f3:rejected-by-decoder"] {
+    for k in ["d2:f8:roundtrip-ok", "d2:f8:rejected-by-decoder", "d2:f7:roundtrip-ok", "d2:f7:rejected-by-decoder", "d1:ok:other-producer-or-mode", "d1:producer:same-octets", "d1:reference-octets-decode-to-the-assembled-message", "d2:f6:roundtrip-ok", "d2:f6:rejected-by-decoder", "d2:f5:roundtrip-ok", "d2:f5:rejected-by-decoder", "d2:large:roundtrip-ok", "d2:large:rejected-by-decoder", "d2:large:seed-roundtrip-ok", "d1:ok:compressed", "d1:ok:plain", "d2:f1:roundtrip-ok", "d2:f2:roundtrip-ok", "d2:f3:roundtrip-ok", "d2:f4:roundtrip-ok", "d2:f3:seed-roundtrip-ok", "d2:f3:rejected-by-decoder"] {
         if ctx.outcome_count(k) == 0 {
             ctx.machinery_failure(&format!("vacuous run: outcome class {k} never occurred"));
         }
